@@ -90,6 +90,28 @@ def run(rep, tier):
                         "re-reading the *pointer* cell of a tainted_volatile<T*> between range check and element loop is covered by the per-element containment check of operator[] (C05) and is not a C09 clause"]
 
 
+def unchecked_element_read(p, upto):
+    """an element read inside the copy loop whose address is built from a fetch of the pointer cell that no dominating containment
+    check (is_in_same_sandbox / is_pointer_in_sandbox_memory abort check) mentions"""
+    evs = p.events
+    for k, e in enumerate(evs[:upto]):
+        if e.kind != "VREAD" or (e.extra or {}).get("local") or e.loop == 0:
+            continue
+        lv = e.a
+        if lv == ("fld", THIS_OBJ, "data") or (isinstance(lv, tuple) and lv[:1] == ("fld",) and lv[1] == THIS_OBJ):
+            continue   # the pointer cell itself
+        fetches = set()
+        q.mentions(lv, lambda x: fetches.add(x) or False if isinstance(x, tuple) and x[:1] == ("vrd",) and len(x) > 2 and x[2] == ("fld", THIS_OBJ, "data") else False)
+        for v in fetches:
+            covered = any(e2.kind == "ASSUME" and (e2.extra or {}).get("abort_check") and
+                          q.mentions(e2.a, lambda x: isinstance(x, tuple) and x[:1] in (("ucall",), ("call",)) and
+                                     q.short(x[2] if x[0] == "ucall" else x[1]) in ("impl_is_in_same_sandbox", "impl_is_pointer_in_sandbox_memory") and q.mentions(x, lambda y: y == v))
+                          for e2 in evs[:k])
+            if not covered:
+                return "an element is read at %s: that address is built from a fetch of the pointer cell which no containment check covers (the range was checked for an earlier fetch)" % fmt(lv)[:90]
+    return None
+
+
 def check_variant(rep, db, f, inst):
     from . import ops
     wk = ops.wrapper_kind(f)
@@ -107,6 +129,13 @@ def check_variant(rep, db, f, inst):
             rep.violation("R-C09-snapshot", site(f), "the verifier is called %d times on a path" % len(vc), f["loc"], inst)
             return
         i, call = vc[0]
+        if this_vol and sn in ("copy_and_verify_range", "copy_and_verify_string"):
+            # the pointer itself lives in sandbox memory: every element read in the copy loop must go through an address that was
+            # containment-checked against the SAME fetched pointer value (a later re-fetch of the cell may name other memory)
+            why = unchecked_element_read(p, i)
+            if why:
+                rep.violation("R-C09-single-fetch", site(f) + " [element address]", why, f["loc"], inst)
+                return
         later = [e for e in p.events[i + 1:] if e.kind == "VREAD" and not (e.extra or {}).get("local") and is_sandbox_lv(e.a, this_vol)]
         if later:
             rep.violation("R-C09-snapshot", site(f), "sandbox memory is read after the verifier ran (%s)" % fmt(later[0].a), later[0].loc, inst)
